@@ -121,6 +121,10 @@ def second_instances():
             pass
 
 
+RNG_FULL = e2.Scripted(0, full_choice=True)
+FULL_KINDS = set()
+
+
 def _has_regex(t):
     return "'regex'" in repr(t)
 
@@ -156,6 +160,16 @@ def worker(shard, nshards, tier, seed, mode="shard"):
             acc.count("schemas_after_second_instances" if second else "schemas")
             info, found, n, outcomes = examine(rng, t, s, b)
             acc.count("executions", n)
+            if _has_regex(t) and not second and mode == "shard":
+                # pattern schemas once more with EVERY index of every choice() as an answer
+                # (one deviation): a single bad letter in an alphabet is a 1-in-100 draw
+                with e2.installed(RNG_FULL):
+                    _, found2, n2, _ = examine(RNG_FULL, t, s, dict(b, D=1, full_cap=400, max_execs=4000))
+                acc.count("executions", n2)
+                acc.count("pattern_schemas_with_every_choice_index")
+                for k2, v2 in found2.items():
+                    found.setdefault(k2, v2)
+                    FULL_KINDS.add((repr(t), k2))
             acc.count("exhaustive_schemas", int(info["exhaustive"]))
             if info["capped"]:
                 acc.cap("max_execs")
@@ -170,7 +184,8 @@ def worker(shard, nshards, tier, seed, mode="shard"):
                               {"term": src(t), "term_show": show(t), "minimal": show(mt),
                                "script": [list(x) for x in script], "detail": detail,
                                "kind": rawkind, "tier": tier, "seed": seed,
-                               "second_instances": second})
+                               "second_instances": second,
+                               "every_choice_index": (repr(t), rawkind) in FULL_KINDS})
             if i % 61 == 0 and not second:
                 acc.sample({"schema": show(t), "executions": n, "distinct_values": len(outcomes),
                             "whole_tree": info["exhaustive"], "max_points": info["max_points"]})
@@ -216,7 +231,11 @@ def replay(case):
         if case.get("second_instances"):
             second_instances()
             b = dict(b, D=1, full_cap=200)
-        _, found, _, _ = examine(rng, t, s, b)
+        if case.get("every_choice_index"):
+            with e2.installed(RNG_FULL):
+                _, found, _, _ = examine(RNG_FULL, t, s, dict(b, D=1, full_cap=400, max_execs=4000))
+        else:
+            _, found, _, _ = examine(rng, t, s, b)
         if case["kind"] in found:
             return f"C01|{case['kind']}|{case['minimal']}"
     return None
